@@ -4,7 +4,7 @@
    proofs: Proofs/VecConcBase.v (lock word, memory, abstract = concrete), Proofs/VecConcLin.v (the log),
    Proofs/VecConcFacts.v (consequences, validator soundness), Proofs/VecConcRT.v (real-time form),
    Proofs/VecConcStrict.v (exactness of the linearisation search, the refutation witness),
-   Proofs/VecConcSpec.v (validated trace => the proved clauses of the executable relaxed spec).
+   Proofs/VecConcSpec.v, Proofs/VecConcSpec2.v (validated trace => the proved clauses of the executable relaxed spec).
    All statements quantify over every trace [tr] of labelled steps (every interleaving / schedule, any number of
    threads, any programs: a thread may invoke any call whenever it is idle).
 
@@ -22,7 +22,7 @@
    not collected, handles survive removal, recreated children start from zero, sequential histories. *)
 Require Import PV.Base.Prelude PV.Model.Conc PV.Model.VecConc.
 Require Import PV.Proofs.VecConcBase PV.Proofs.VecConcLin PV.Proofs.VecConcFacts PV.Proofs.VecConcRT.
-Require Import PV.Spec.SpecC10 PV.Proofs.VecConcStrict PV.Proofs.VecConcSpec.
+Require Import PV.Spec.SpecC10 PV.Proofs.VecConcStrict PV.Proofs.VecConcSpec PV.Proofs.VecConcSpec2.
 From Coq Require Import Sorted Permutation.
 Open Scope N_scope.
 
@@ -177,20 +177,29 @@ Proof. exact (conj (classify_strict nl es) (conj (classify_known nl es) (classif
 (* ---- validated trace => executable relaxed spec (uniform theorem of the concurrent properties): PARTIAL ----
    FULL STATEMENT:   forall nl nth es, vcheck nl nth es = true -> in_domain nth es = true -> spec_c10_relaxed nl es = true
    ([in_domain] = every event belongs to one of the nth harness threads).
-   PROVED ([c10_relaxed_spec_of_validated_partial]): the conjuncts [proved_clauses] of the spec - every call returned and nothing went
-   wrong (wf); the result kinds incl. the length of collected keys; no collection shows a key twice; removed / reset keys are not
-   collected unless a request for them may be ordered after the removal (real time) - via the bridge "the call records the spec
-   extracts from the events = the model's ghost call records" (Proofs/VecConcSpec.v reach_xinv) and c10_lin's invariant.
+   PROVED ([c10_relaxed_spec_of_validated_partial]): the conjuncts [proved_clauses2] of the spec, via the bridge "the call records the
+   spec extracts from the events = the model's ghost call records" (Proofs/VecConcSpec.v reach_xinv), c10_lin's invariant and
+   c10_no_lost_update with the arithmetic of sums of distinct powers of two (Proofs/VecConcSpec2.v):
+     - every call returned and nothing went wrong (wf); the result kinds incl. the length of collected keys;
+     - no collection shows a key twice;
+     - removed / reset keys are not collected unless a request for them may be ordered after the removal (real time);
+     - the remove clause: Ok only if the key was requested before the removal returned, Err never when the key is certainly present;
+     - no lost update: an update whose call returned before a collection was invoked is decoded from the collected value of its key
+       unless a successful remove of the key / a reset may be ordered in between.
    PROVED IN FULL for scenarios whose increments are not distinct powers of two ([c10_relaxed_spec_of_validated_undecodable]): there
    the spec has no value-decoding clause and no search.
-   MISSING for the full statement: the clauses that decode collected values (shown bits are updates for that key, no lost update,
-   recreated-is-fresh: they need the bit arithmetic of sums of distinct powers of two on top of c10_no_lost_update), the remove-Ok/Err
-   clause, and "the search does not answer NotFound" (needs a simulation from the ghost log to the spec's own sequential map; the
-   exactness of NotFound is proved: c10_strict_search_exact / dfs_notfound_exact).  [c10_strict_failure_is_known_class] (on validated
-   traces a strict failure is always in the known class) is not attempted: it needs that simulation and its converse. *)
+   MISSING for the full statement, precisely:
+     (a) in [coll_ok], the conjunct "shown" (a shown key was requested before the collection returned; value < 2^63; every decoded bit
+         is an update for exactly that key invoked before the collection returned; no bit outside the scenario's increments) and the
+         conjunct "recreated-is-fresh" - both need, on top of [read_value_bits] (proved), that a child id belongs to one key for ever
+         and never re-enters the map once removed;
+     (b) "lin_search false does not answer NotFound": needs lin_exists for the relaxed action system from the ghost log (a simulation
+         of the spec's sequential map, thread-local handle / snapshot, and the placement of the end-of-reads action); the exactness of
+         NotFound is proved (c10_strict_search_exact / dfs_notfound_exact), so no budget clause would be needed.
+   [c10_strict_failure_is_known_class] is not attempted: it needs (b) and its converse. *)
 Theorem c10_relaxed_spec_of_validated_partial nl nth es :
-  vcheck nl nth es = true -> in_domain nth es = true -> proved_clauses nl es = true.
-Proof. exact (relaxed_spec_of_validated_partial nl nth es). Qed.
+  vcheck nl nth es = true -> in_domain nth es = true -> proved_clauses2 nl es = true.
+Proof. exact (relaxed_spec_of_validated_partial2 nl nth es). Qed.
 
 Theorem c10_relaxed_spec_of_validated_undecodable nl nth es :
   vcheck nl nth es = true -> in_domain nth es = true -> incs_ok (fst (extract es)) = false -> spec_c10_relaxed nl es = true.
@@ -198,16 +207,16 @@ Proof. exact (relaxed_spec_of_validated_undecodable nl nth es). Qed.
 
 (* [proved_clauses] consists of conjuncts of the spec *)
 Theorem c10_proved_clauses_are_spec_conjuncts nl es :
-  spec_c10_relaxed nl es = true -> incs_ok (fst (extract es)) = true -> proved_clauses nl es = true.
-Proof. exact (relaxed_spec_implies_proved_clauses nl es). Qed.
+  spec_c10_relaxed nl es = true -> incs_ok (fst (extract es)) = true -> proved_clauses2 nl es = true.
+Proof. exact (relaxed_spec_implies_proved_clauses2 nl es). Qed.
 
 (* a generated (real) trace is in the domain; on it the whole relaxed spec also evaluates to true *)
 Example c10_race_in_domain :
-  in_domain 2 race_trace = true /\ vcheck 1 2 race_trace = true /\ proved_clauses 1 race_trace = true /\ spec_c10_relaxed 1 race_trace = true.
+  in_domain 2 race_trace = true /\ vcheck 1 2 race_trace = true /\ proved_clauses2 1 race_trace = true /\ spec_c10_relaxed 1 race_trace = true.
 Proof.
   assert (Hd : in_domain 2 race_trace = true) by (vm_compute; reflexivity).
   assert (Hv : vcheck 1 2 race_trace = true) by (vm_compute; reflexivity).
-  split; [exact Hd|]. split; [exact Hv|]. split; [exact (relaxed_spec_of_validated_partial 1 2 race_trace Hv Hd) | vm_compute; reflexivity].
+  split; [exact Hd|]. split; [exact Hv|]. split; [exact (relaxed_spec_of_validated_partial2 1 2 race_trace Hv Hd) | vm_compute; reflexivity].
 Qed.
 
 (* ---- non-vacuity ---- *)
@@ -277,7 +286,7 @@ Check c10_strict_refuted :
   /\ ~ strict_linearisation_exists 1 (fst (extract snapshot_trace))
   /\ spec_c10_strict 1 snapshot_trace = false /\ spec_c10_relaxed 1 snapshot_trace = true /\ known_c10 1 snapshot_trace = true.
 Check c10_relaxed_spec_of_validated_partial : forall nl nth es,
-  vcheck nl nth es = true -> in_domain nth es = true -> proved_clauses nl es = true.
+  vcheck nl nth es = true -> in_domain nth es = true -> proved_clauses2 nl es = true.
 Check c10_relaxed_spec_of_validated_undecodable : forall nl nth es,
   vcheck nl nth es = true -> in_domain nth es = true -> incs_ok (fst (extract es)) = false -> spec_c10_relaxed nl es = true.
 Check c10_validated_traces_are_model_paths : forall nl nth es,
